@@ -36,6 +36,9 @@ inline size_t around(size_t cur, int64_t sel, int64_t extra) {   // operand leng
   switch (sel % 4) { case 0: return 0; case 1: return cur > 0 ? (size_t)(extra % (int64_t)cur) : 0; case 2: return cur; default: return cur + 1 + (size_t)(extra % 3); }
 }
 
+// the libFuzzer target runs in-process: ops whose documented outcome is abort() are skipped there
+static bool g_skip_abort_ops = false;
+
 struct Interp {
   Pools P; bool live; Flags fl; bool deleted_something = false; int step = 0;
   explicit Interp(bool live_) : live(live_) {}
@@ -97,7 +100,7 @@ struct Interp {
                 if (live) { dvector *x = DVectorExtend(P.dv[s], P.dv[s2]); DelDVector(&P.dv[s3]); P.dv[s3] = x; } P.sdv[s3] = e; break; }
       case 7: { if (sh.empty()) break; size_t idx = (size_t)c % sh.size(); double v = payload(d, 1); if (live) setDVectorValue(P.dv[s], idx, v); sh[idx] = v; break; }
       case 8: { if (sh.empty()) break; size_t idx = (size_t)c % sh.size(); if (live && getDVectorValue(P.dv[s], idx) != sh[idx]) bad("getDVectorValue"); break; }
-      case 9: { if (d % 8 != 0) break;   // out-of-range accessor: the documented behaviour is an error message and abort()
+      case 9: { if (d % 8 != 0 || g_skip_abort_ops) break;   // out-of-range accessor: the documented behaviour is an error message and abort()
                 fl.oor_access = true; if (live) { expect_abort(true); if (c % 2) setDVectorValue(P.dv[s], sh.size() + (size_t)(c % 3), 1.0); else (void)getDVectorValue(P.dv[s], sh.size() + (size_t)(c % 3)); expect_abort(false); bad("out-of-range dvector accessor returned"); } break; }
       case 10: { if (sh.empty()) break; if (live) DVectorSort(P.dv[s]); std::sort(sh.begin(), sh.end()); break; }
       case 11: { if (sh.empty()) break; double med = 0; if (live) DVectorMedian(P.dv[s], &med); std::sort(sh.begin(), sh.end());
@@ -227,7 +230,7 @@ struct Interp {
       case 7: { fl.oor_access = true;   // out-of-range tensor accessors: getTensorValue prints and returns NAN, setTensorValue prints and abort()s
                 if (live) { double g = getTensorValue(P.tn[s], sh.size() + (size_t)(c % 2), 0, 0); if (!std::isnan(g)) bad("out-of-range getTensorValue did not return NAN");
                   if (!sh.empty() && sh[0].r * sh[0].c > 0) { g = getTensorValue(P.tn[s], 0, sh[0].r, 0); if (!std::isnan(g)) bad("out-of-range (row) getTensorValue did not return NAN"); } }
-                if (d % 8 != 0) break;
+                if (d % 8 != 0 || g_skip_abort_ops) break;
                 if (live) { expect_abort(true); setTensorValue(P.tn[s], sh.size() + (size_t)(c % 2), 0, 0, 1.0); expect_abort(false); bad("out-of-range setTensorValue returned"); } break; }
       case 8: { double v = payload(d, 7); if (live) TensorSet(P.tn[s], v); for (auto &m : sh) for (auto &r : m.d) for (auto &x : r) x = v; break; }
       case 9: case 10: { int s2 = 1 - s; auto &dst = P.stn[s2];
